@@ -580,6 +580,39 @@ func init() {
 				}
 			}
 		}
+		// (e) a partial that includes itself, rendered with the cache ON (every level is handed the same cached
+		// template while the outer execution of it is still running), by one goroutine and by many: it finishes,
+		// and with the output of a lone rendering
+		{
+			plush.CacheEnabled = true
+			feeder := func(name string) (string, error) {
+				return map[string]string{"tree": "(<%= n %><%= if (n > 0) { %><%= partial(\"tree\", {n: n - 1}) %><% } %>)"}[name], nil
+			}
+			for _, G := range []int{1, 4, 16} {
+				outs := make([]string, G)
+				errs := make([]error, G)
+				var wg sync.WaitGroup
+				for g := 0; g < G; g++ {
+					wg.Add(1)
+					go func(g int) {
+						defer wg.Done()
+						ctx := plush.NewContext()
+						ctx.Set("partialFeeder", feeder)
+						outs[g], errs[g] = plush.Render("<%= partial(\"tree\", {n: 3}) %>", ctx)
+					}(g)
+				}
+				c14wait(e, &wg)
+				e.rep.Evaluations += G
+				e.Count("recursive-partial-cached")
+				e.Distinct(fmt.Sprintf("recpartial/%d", G))
+				for g := 0; g < G; g++ {
+					if errs[g] != nil || outs[g] != "(3(2(1(0))))" {
+						e.Violate("c14-output-differs", fmt.Sprintf("a partial that includes itself, cache on, %d goroutines: goroutine %d got %q, %v; alone \"(3(2(1(0))))\"", G, g, outs[g], errs[g]), map[string]interface{}{"goroutines": G})
+						break
+					}
+				}
+			}
+		}
 		// (c3) a Template built as a literal is parsed by its first Exec: all goroutines make that first
 		// call (and Clone it) at the same moment
 		for round := 0; round < 6; round++ {
